@@ -1,6 +1,7 @@
 //! pipe / pipe_in scenarios (C11, C12, C16)
 use crate::h::*;
 use desync::{pipe, pipe_in, Desync};
+use desync::pipe::PipeStream;
 use futures::{FutureExt, StreamExt};
 use std::sync::atomic::{AtomicUsize, Ordering as AO};
 use std::sync::Arc;
@@ -95,6 +96,43 @@ fn pipe_drop_output(cfg: &Cfg) {
         if weak.strong_count() != 0 || w.payload_drops.load(AO::SeqCst) != 1 {
             rt::violation(format!("PIPE-LEAK the Desync is still alive ({} strong references, payload dropped {} times) after the pipe that held the last reference was shut down", weak.strong_count(), w.payload_drops.load(AO::SeqCst)));
         }
+        check_no_unplanned_panics();
+        rt::quiesce();
+        shutdown();
+        return;
+    }
+    if mode == 5 {
+        // the consumer has polled the output to Pending with a waker that *drops the output stream* when it is woken
+        // (cancel-on-wake); then an item arrives: the drop happens inside the producer's wake-up call
+        struct DropOutputOnWake(std::sync::Mutex<Option<PipeStream<u32>>>);
+        impl futures::task::ArcWake for DropOutputOnWake {
+            fn wake_by_ref(a: &Arc<Self>) {
+                let s = a.0.lock().unwrap().take();
+                let prev = rt::note("in:drop-output-stream");
+                drop(s);
+                rt::note(&prev);
+            }
+        }
+        let slot = Arc::new(DropOutputOnWake(std::sync::Mutex::new(None)));
+        let waker = futures::task::waker(slot.clone());
+        let mut cx = std::task::Context::from_waker(&waker);
+        if let std::task::Poll::Ready(_) = out.poll_next_unpin(&mut cx) {
+            rt::violation("PIPE-OUT-ITEMS the output produced something although the input was silent".into());
+        }
+        *slot.0.lock().unwrap() = Some(out);
+        drop(waker);
+        ctl.push(1);
+        rt::quiesce();
+        if slot.0.lock().unwrap().is_some() {
+            rt::violation("PIPE-OUT-WAKE the consumer was not woken when an item arrived".into());
+        }
+        if ctl.stream_drops() != 1 || closure_drops.load(AO::SeqCst) != 1 {
+            rt::violation(format!("PIPE-LEAK output stream dropped inside the consumer's waker: input stream drops={} closure drops={}", ctl.stream_drops(), closure_drops.load(AO::SeqCst)));
+        }
+        if Arc::strong_count(&obj) != 1 {
+            rt::violation(format!("PIPE-LEAK the pipe still holds {} strong reference(s) on the Desync", Arc::strong_count(&obj) - 1));
+        }
+        drop(obj);
         check_no_unplanned_panics();
         rt::quiesce();
         shutdown();
